@@ -776,6 +776,12 @@ func (n *RegexNode) eliminateEndingBacktracking() {
 			// an Atomic one if its grandparent is already Atomic.
 			// e.g. [xyz](?:abc|def) => [xyz](?>abc|def)
 
+			// A balancing group can still fail after its child has matched (when the group
+			// it pops has no capture) and then needs to backtrack into that child.
+			if node.T == NtCapture && node.N != -1 {
+				return
+			}
+
 			// validate grandparent isn't atomic
 			existingChild := node.Children[len(node.Children)-1]
 			if (existingChild.T == NtAlternate || existingChild.T == NtBackRefCond ||
